@@ -278,7 +278,8 @@ Scramble(o) == /\ lvl = o /\ o <= MaxOrd
 InitSets(rs) ==
   [replicas : 0..MaxRep, slots : SUBSET Ords, policy : Policies, strat : Strats, part : 0..1, tmpl : Tmpls, paused : {FALSE},
    deleting : {FALSE}, histLimit : {1}, gen : {1}, rv : {1}, nclaims : ClaimCounts,
-   status : [obsGen : {0}, replicas : {0}, ready : {0}, current : {0}, updated : {0}, collisions : {0},
+   \* (a migrated set may carry a collision count: its revisions were then named, and labelled, with an earlier count)
+   status : [obsGen : {0}, replicas : {0}, ready : {0}, current : {0}, updated : {0}, collisions : IF Migrating THEN {0, 1} ELSE {0},
              curRev : IF rs = <<>> THEN {""} ELSE {"", rs[1].name}, updRev : IF rs = <<>> THEN {""} ELSE {"", rs[Len(rs)].name}]]
 
 BlankSet == [replicas |-> 0, slots |-> {}, policy |-> "OrderedReady", strat |-> "RollingUpdate", part |-> 0, tmpl |-> "t0", paused |-> FALSE,
